@@ -36,6 +36,7 @@
 #define _GNU_SOURCE
 #include "vpeer.h"
 #include "vs.h"
+#include "orderrace.h"
 #include <stdarg.h>
 #include <stdlib.h>
 #include <string.h>
@@ -860,5 +861,11 @@ main(int argc, char **argv)
 	    "sender byte, order, duplicate, phantom, ownership, conservation after "
 	    "drain; a shrink of A's buffers may discard at most what no longer "
 	    "fits); hop: exact per class, hop==ttl delivered, hop 0 unspecified");
+	{
+		static const orc_arg OR[] = { { "C08", "pair0", nng_pair0_open, nng_pair0_open, 0 }, { "C08", "pair1", nng_pair1_open, nng_pair1_open, 0 } };
+		for (int i = 0; i < 2; i++)
+			if (i == 0 || vx_is_thorough())
+				orc_explore_tiers(&OR[i]);
+	}
 	return vx_finish();
 }
